@@ -390,6 +390,12 @@ func earlierDocument(xmlText string) string {
 // reproducible) ANOTHER document with the same ids but other behaviour is instantiated, started and stopped first in the
 // same program: whatever the engine keeps per package, per id or per text must not carry anything over.
 func Start(xmlText string, vars map[string]any, opts ...bpmn.Option) (*Inst, *schema.Definitions, error) {
+	var written *Graph
+	lastMu.Lock()
+	if lastGraph != nil && lastXML == xmlText {
+		written = lastGraph
+	}
+	lastMu.Unlock()
 	h := fnv.New32a()
 	h.Write([]byte(xmlText))
 	if h.Sum32()%4 == 0 && len(opts) == 0 {
@@ -432,9 +438,33 @@ func Start(xmlText string, vars map[string]any, opts ...bpmn.Option) (*Inst, *sc
 	if err != nil {
 		return nil, nil, fmt.Errorf("parse: %w", err)
 	}
+	if written != nil && len(*defs.Processes()) == 1 {
+		// the parser has read what the generator wrote: kinds, flow lists in order, scopes, defaults, hosts, conditions
+		read := map[string]string{}
+		for _, l := range ProgLines(&(*defs.Processes())[0], written.CondRPN) {
+			if w := strings.Fields(l); len(w) > 1 {
+				read[w[1]] = l
+			}
+		}
+		for id, want := range written.Describe() {
+			got, ok := read[id]
+			for _, more := range []string{" results=", " outputs=", " retries=", " defs="} {
+				if i := strings.Index(got, more); i >= 0 {
+					got = got[:i]
+				}
+			}
+			if !ok || got != want {
+				return nil, nil, fmt.Errorf("document-read-differently: written [%s] read [%s]", want, got)
+			}
+		}
+		DocumentsCompared++
+	}
 	in, err := StartDefs(defs, vars, opts...)
 	return in, defs, err
 }
+
+// DocumentsCompared counts the documents whose parse was compared with what the generator wrote.
+var DocumentsCompared int
 
 // ContainedIDDocuments counts the documents whose ids were made to contain each other.
 var ContainedIDDocuments int
